@@ -210,13 +210,15 @@ def arr(v):
     return torch.as_tensor(v).detach().to(torch.float64).numpy().copy(), None
 
 
-def make_algo(n_iter=8, n_burn=N_BURN, power=1.0, seed=0, via_load=False):
+def make_algo(n_iter=8, n_burn=N_BURN, power=1.0, seed=0, via_load=False, annealing=False):
     """via_load: the algorithm is built with another length of the memory-less phase, the wanted one being given afterwards
     through the documented `algo.load_parameters({...})` - the phase of every iteration must follow what the algorithm holds now."""
     with warnings.catch_warnings():
         warnings.simplefilter("ignore")
         settings = AlgorithmSettings("mcmc_saem", n_iter=n_iter, progress_bar=False, seed=seed,
-                                     n_burn_in_iter=n_burn + 3 if via_load else n_burn, n_burn_in_iter_frac=None, burn_in_step_power=power)
+                                     n_burn_in_iter=n_burn + 3 if via_load else n_burn, n_burn_in_iter_frac=None, burn_in_step_power=power,
+                                     # annealing that outlasts the memory-less phase: the chain is still heated when the rules with memory apply
+                                     **({"annealing": dict(do_annealing=True, initial_temperature=3.0, n_plateau=3, n_iter_frac=0.9)} if annealing else {}))
         algo = algorithm_factory(settings)
         if via_load:
             algo.load_parameters({"n_burn_in_iter": n_burn})
@@ -724,7 +726,7 @@ FITS_THOROUGH = FITS_QUICK + [("shared_d2_s1_diag", "3+2", [3, 8], 8), ("shared_
                               ("linear_d2_s1_diag", "2+1+1", [4], 8), ("joint_d1_s0_scalar", "3+2", [], 8), ("logistic_d1_s0_scalar", "2+1+1", [], 8)]
 
 
-def run_fit(name, layout_name, missing, n_iter, seed, acc=None):
+def run_fit(name, layout_name, missing, n_iter, seed, acc=None, annealing=False):
     ctx = make_ctx(name)
     info, model, rec = ctx["info"], ctx["model"], ctx["rec"]
     layout = LAYOUTS[layout_name]
@@ -733,7 +735,7 @@ def run_fit(name, layout_name, missing, n_iter, seed, acc=None):
     ds = make_dataset(info["spec"], df)
     mclass = missing_class(ds)
     n_burn = n_iter // 2
-    algo = make_algo(n_iter=n_iter, n_burn=n_burn, power=0.8, seed=seed)
+    algo = make_algo(n_iter=n_iter, n_burn=n_burn, power=0.8, seed=seed, annealing=annealing)
     # individual latent values already present in the model state are kept by the fit initialisation ("if not already set"):
     # start from dispersed values so that two or three individuals do not collapse the dispersions in a few iterations
     with model.state.auto_fork(None):
@@ -807,6 +809,7 @@ def shards(tier, seed):
             out.append({"kind": "grid", "config": name, "layout": layout_name, "lo": 0, "hi": 1 + n_ent, "n_steps": n_steps, "warm": w})
     for f in (FITS_QUICK if tier == "quick" else FITS_THOROUGH):
         out.append({"kind": "fit", "config": f[0], "layout": f[1], "missing": f[2], "n_iter": f[3], "seed": seed})
+    out.append({"kind": "fit", "config": "logistic_d2_s1_diag", "layout": "2+2", "missing": [1], "n_iter": 8, "seed": seed, "annealing": True})
     return out
 
 
@@ -820,11 +823,12 @@ def _account(acc, info, records):
 def run_shard(shard):
     acc = Acc()
     if shard["kind"] == "fit":
-        problems, records = run_fit(shard["config"], shard["layout"], shard["missing"], shard["n_iter"], shard["seed"], acc)
+        problems, records = run_fit(shard["config"], shard["layout"], shard["missing"], shard["n_iter"], shard["seed"], acc,
+                                    annealing=shard.get("annealing", False))
         info = {"name": shard["config"]}
         _account(acc, info, records)
         acc.count("real_fit_iterations_checked", len(records))
-        case = {k: shard[k] for k in ("kind", "config", "layout", "missing", "n_iter", "seed")}
+        case = {k: shard[k] for k in ("kind", "config", "layout", "missing", "n_iter", "seed", "annealing") if k in shard}
         for sig, msg in problems:
             acc.violation(sig, msg, case)
         return acc.to_dict()
@@ -853,7 +857,7 @@ def run_shard(shard):
 
 def replay(case):
     if case.get("kind") == "fit":
-        problems, _ = run_fit(case["config"], case["layout"], case["missing"], case["n_iter"], case["seed"])
+        problems, _ = run_fit(case["config"], case["layout"], case["missing"], case["n_iter"], case["seed"], annealing=case.get("annealing", False))
     else:
         ctx = make_ctx(case["config"])
         problems, _ = run_history(ctx, case["layout"], case["missing"], case["latent"], case["n_steps"], warm=case.get("warm"))
